@@ -105,7 +105,7 @@ def valid_jac_iface(iface, req):
     return iface == "jax"
 
 
-SLOW = {"budget": 0}      # default.mixed under jax dispatches every tensor op through XLA: seconds per execution
+SLOW = {}      # budgets for slow executions (jax traces/compiles per call; default.mixed under jax takes seconds)
 
 
 def pick_cfgs(rng, req, k, jac=False, must_backprop=False):
@@ -113,21 +113,29 @@ def pick_cfgs(rng, req, k, jac=False, must_backprop=False):
             if valid_cfg(d, i, m, req, jac) and (not jac or valid_jac_iface(i, req))
             and (not must_backprop or m == "backprop")]
     rng.shuffle(allc)
-    slow = [c for c in allc if c[0] == "default.mixed" and c[1] == "jax"]
-    allc = [c for c in allc if c not in slow]
-    if slow and SLOW["budget"] > 0 and rng.random() < 0.3:
-        SLOW["budget"] -= 1
-        allc.insert(0, slow[0])
+    key = "jax_jac" if jac else "jax_res"
+    only_jax = all(c[1] == "jax" for c in allc)
     out, seen_dev = [], set()
+
+    def take(c):
+        if c[1] == "jax":
+            mixed = c[0] == "default.mixed"
+            if SLOW[key] <= 0 or (mixed and SLOW["mixedjax"] <= 0) or (not only_jax and rng.random() < 0.4):
+                return False
+            SLOW[key] -= 1
+            SLOW["mixedjax"] -= mixed
+        out.append(c)
+        return True
+
     for c in allc:                       # spread over devices first
-        if c[0] not in seen_dev:
-            out.append(c); seen_dev.add(c[0])
+        if len(out) < k and c[0] not in seen_dev and take(c):
+            seen_dev.add(c[0])
     for c in allc:
         if len(out) >= k:
             break
         if c not in out:
-            out.append(c)
-    return out[:max(k, 0)]
+            take(c)
+    return out
 
 
 # ------------------------------------------------------------------ python mirror (only to recognise the KNOWN batch-size-1 deviations)
@@ -263,9 +271,9 @@ CORPUS_REQS = [
 def gen_cases(ctx):
     rng = ctx.rng
     q = ctx.tier == "quick"
-    SLOW["budget"] = 2 if q else 24
-    n_res, k_res = (34, 4) if q else (220, 7)
-    n_jac, k_jac = (14, 4) if q else (90, 7)
+    SLOW.update({"jax_res": 10, "jax_jac": 14, "mixedjax": 2} if q else {"jax_res": 10 ** 6, "jax_jac": 10 ** 6, "mixedjax": 24})
+    n_res, k_res = (30, 4) if q else (220, 7)
+    n_jac, k_jac = (12, 4) if q else (90, 7)
     n_tj = 8 if q else 50
     n_batch = 6 if q else 40
     cases = []
